@@ -9,6 +9,8 @@ import (
 	"sync"
 	"sync/atomic"
 	"time"
+	"unicode/utf16"
+	"unicode/utf8"
 
 	"github.com/jamespfennell/gtfs"
 )
@@ -64,11 +66,34 @@ func cmdRace(args []string) int {
 	}
 	// tasks
 	var tasks []*raceTask
-	for i := 0; i < 6; i++ {
+	for i := 0; i < 10; i++ {
 		f := genFeed(r, feedOpts{messy: i%2 == 1})
-		z := zipOf(f.members(r, false, nil), i%2 == 0)
+		ms := f.members(r, false, nil)
+		enc := "plain"
+		switch {
+		case i >= 8:
+			// every table as UTF-16 (little endian) behind its byte-order mark
+			enc = "utf-16le+bom"
+			for k := range ms {
+				if utf8.ValidString(ms[k].data) {
+					u := utf16.Encode([]rune(ms[k].data))
+					b := []byte{0xFF, 0xFE}
+					for _, c := range u {
+						b = append(b, byte(c), byte(c>>8))
+					}
+					ms[k].data = string(b)
+				}
+			}
+		case i >= 6:
+			// every table behind a UTF-8 byte-order mark (the decoding layer of the csv package is in use)
+			enc = "utf-8+bom"
+			for k := range ms {
+				ms[k].data = "\xEF\xBB\xBF" + ms[k].data
+			}
+		}
+		z := zipOf(ms, i%2 == 0)
 		inh := i%3 == 0
-		tasks = append(tasks, &raceTask{static: true, zip: z, inherit: inh, want: canonStaticBytes(z, inh), desc: fmt.Sprintf("ParseStatic feed %d inherit=%v", i, inh)})
+		tasks = append(tasks, &raceTask{static: true, zip: z, inherit: inh, want: canonStaticBytes(z, inh), desc: fmt.Sprintf("ParseStatic feed %d (%s) inherit=%v", i, enc, inh)})
 	}
 	for cfg := 0; cfg < 25; cfg += 2 {
 		ext := extConfig(cfg)
@@ -192,7 +217,7 @@ func cmdRace(args []string) int {
 	}
 	wg.Wait()
 	sum := Summary{Property: "C18", Tier: *tier, Seed: *seed, Evaluations: int(evals), DistinctNontrivial: len(tasks),
-		Rule: "16 goroutines for 12 s (thorough: 5 min) run ParseStatic on 6 shared archives and ParseRealtime on 42 shared messages under 13 extension configurations, each configuration sharing ONE options value and extension object across all goroutines (plus a shared zero-valued options value); every result is compared with the same call made alone, results are hashed and walked from other goroutines; the binary is built with -race; distinct_nontrivial counts the distinct tasks",
+		Rule: "16 goroutines for 12 s (thorough: 5 min) run ParseStatic on 10 shared archives (two with every table behind a UTF-8 byte-order mark, two in UTF-16 behind its mark) and ParseRealtime on 42 shared messages under 13 extension configurations, each configuration sharing ONE options value and extension object across all goroutines (plus a shared zero-valued options value); every result is compared with the same call made alone, results are hashed and walked from other goroutines; the binary is built with -race; distinct_nontrivial counts the distinct tasks",
 		Tags: map[string]int{"tasks": len(tasks), "mismatches": int(mismatches)}, KnownSeen: map[string]int{}, Validated: int(evals - mismatches)}
 	for _, t := range tasks[:3] {
 		sum.Samples = append(sum.Samples, t.desc)
